@@ -118,7 +118,7 @@ type Engine struct {
 
 func NewEngine(prog *ssa.Program, solver *smt.Solver) *Engine {
 	e := &Engine{prog: prog, Solver: solver, Log: os.Stderr,
-		FeasCheck: true, MergeReleases: true, Unwind: 300, MaxDepth: 200, MaxEnum: 16, MaxAlloc: 4096, MaxConfigs: 5_000_000,
+		FeasCheck: true, MergeReleases: true, Unwind: 300, MaxDepth: 200, MaxEnum: 16, MaxAlloc: 40000, MaxConfigs: 5_000_000,
 		intrinsics: map[string]Intrinsic{}, modelFns: map[string]*ssa.Function{}, atomicFns: map[string]bool{},
 		visibleFns: map[string]VisKind{},
 		objIDs:     map[objKey]ObjID{}, threadIDs: map[threadKey]ThreadID{}, globals: map[*ssa.Global]ObjID{},
@@ -233,29 +233,8 @@ func (e *Engine) probeVar(t *term.Term) *term.Term {
 }
 
 func (e *Engine) needBytesAxiom(n int) {
-	if e.bytesAx[n] {
-		return
-	}
+	// injectivity of str_of_bytes_n is applied syntactically by term.Eq; no quantified axiom is sent
 	e.bytesAx[n] = true
-	// injectivity of str_of_bytes_n is asserted lazily per pair in valuesEqual? Simpler: declare inverse functions.
-	var params, args []string
-	for i := 0; i < n; i++ {
-		params = append(params, fmt.Sprintf("(b%d (_ BitVec 8))", i))
-		args = append(args, fmt.Sprintf("b%d", i))
-	}
-	var sorts []string
-	for i := 0; i < n; i++ {
-		sorts = append(sorts, "(_ BitVec 8)")
-	}
-	e.Solver.Raw(fmt.Sprintf("(declare-fun str_of_bytes_%d (%s) String)", n, strings.Join(sorts, " ")))
-	e.Solver.MarkUF(fmt.Sprintf("str_of_bytes_%d", n))
-	for i := 0; i < n; i++ {
-		e.Solver.Raw(fmt.Sprintf("(declare-fun byte_%d_of_%d (String) (_ BitVec 8))", i, n))
-		e.Solver.Raw(fmt.Sprintf("(assert (forall (%s) (= (byte_%d_of_%d (str_of_bytes_%d %s)) b%d)))",
-			strings.Join(params, " "), i, n, n, strings.Join(args, " "), i))
-	}
-	e.Solver.Raw(fmt.Sprintf("(assert (forall (%s) (= (str.len (str_of_bytes_%d %s)) %d)))",
-		strings.Join(params, " "), n, strings.Join(args, " "), n))
 }
 
 // ---------------------------------------------------------------- globals and package initialisation
